@@ -183,9 +183,21 @@ fn run_case(case: &Case, st: &mut RunStats) -> Outcome<Case> {
         // outcome must also be that of a fresh reader which meets the same fault at its first read
         // of the same page (whether a fault surfaces or is absorbed must not depend on the history)
         let mine: Vec<&Fault> = faults.iter().filter(|f| rec.op_from <= f.at && f.at < rec.op_to).collect();
-        if let [f] = mine[..] {
+        // ... and no other device operation of this history op failed (the second half of a
+        // short-then-error fault of an EARLIER operation can fire here)
+        let other_failures = ctx.borrow().log.iter().any(|o| o.err != 0 && rec.op_from <= o.no && o.no < rec.op_to && !mine.iter().any(|f| f.at == o.no));
+        if std::env::var("E57SIM_TRACE").is_ok() {
+            eprintln!("op #{i} range {}..{} mine={:?} failing={:?} fired={:?}", rec.op_from, rec.op_to, mine, ctx.borrow().log.iter().filter(|o| o.err != 0).map(|o| (o.no, o.err, o.dev, o.kind)).collect::<Vec<_>>(), ctx.borrow().fired.iter().map(|f| (f.no, f.name)).collect::<Vec<_>>());
+        }
+        if let ([f], false) = (&mine[..], other_failures) {
             let hit = ctx.borrow().log.iter().find(|o| o.no == f.at).cloned();
-            let fired = ctx.borrow().fired.iter().any(|x| x.no == f.at);
+            // the fault itself fired there, and nothing else (the pending second half of an
+            // earlier short-then-error fault takes precedence over the fault planned for that op)
+            let fired = {
+                let c = ctx.borrow();
+                let at: Vec<&Fired> = c.fired.iter().filter(|x| x.no == f.at).collect();
+                at.len() == 1 && at[0].name == f.kind.name()
+            };
             if let (true, Some(o)) = (fired, hit) {
                 if o.dev == DEV_DISK2 && o.kind == OpKind::Read && !matches!(f.kind, FaultKind::Mutate(_)) {
                     let page = o.offset / 1024;
